@@ -1,11 +1,11 @@
-\* static copy of the main exhaustive configuration of TSM.tla (the drivers c04/c05 generate theirs from tsmlib.consts)
+\* a peer that shrinks the granted window (WindowRespectsAck)
 SPECIFICATION Spec
 CONSTANTS
-  NQ = 3
-  NR = 3
+  NQ = 1
+  NR = 5
   RK = "ack"
-  PWC = 2
-  PWS = 2
+  PWC = 4
+  PWS = 4
   Retries = 1
   Tapdu = 6
   Tseg = 1
@@ -14,10 +14,10 @@ CONSTANTS
   DelayBy = 1
   SeqMod = 256
   MaxDrop = 1
-  MaxDup = 1
-  MaxDelay = 1
+  MaxDup = 0
+  MaxDelay = 0
   MaxNow = 1000000
-  MaxShrink = 0
+  MaxShrink = 1
   RecvMult = 4
   ResendSeg0OnNoWin = TRUE
   IndexFromSeq = FALSE
@@ -37,7 +37,6 @@ INVARIANT WindowBound
 INVARIANT WindowRange
 INVARIANT ClientRxIsPrefix
 INVARIANT SingleFaultRepaired
-INVARIANT FaultFreeSucceeds
 PROPERTY SilenceAfterOutcome
 PROPERTY AbortOnlyAfterAllRetries
 PROPERTY NoDoubleIndicationWhileBusy
